@@ -953,6 +953,51 @@ pub fn check(w: &Workload, o: &Outcome) -> Option<Violation> {
     None
 }
 
+/// Self-contained scripts (no shared container, no second thread) in which code that a container
+/// operation calls back into — an element's overloaded operator, `@display`, a loop body — reads
+/// or modifies the container the operation is working on. They must complete: a panic (rc) or
+/// a self-deadlock (arc) is a violation. (id, script)
+pub const SOLO_SCRIPTS: &[(&str, &str)] = &[
+    ("sort-elements-lt-reads-list", "l = []\no =\n  @<: |other| (size l) > 100\nl.push o\nl.push o\nl.sort()\nsize l\n"),
+    ("retain-value-elements-eq-reads-list", "l = []\no =\n  @==: |other| (size l) > 100\nl.push o\nl.push o\nl.retain o\nsize l\n"),
+    ("contains-elements-eq-reads-list", "l = []\no =\n  @==: |other| (size l) > 100\nl.push o\nl.push o\nl.contains o\n"),
+    ("display-elements-read-list", "l = []\no =\n  @display: || 'o{size l}'\nl.push o\nl.push o\n'{l}'\n"),
+    ("eq-elements-read-list", "l = []\no =\n  @==: |other| (size l) > 100\nl.push o\nl.push o\nl == [o, o]\n"),
+    ("min-elements-lt-reads-list", "l = []\no =\n  @<: |other| (size l) > 100\nl.push o\nl.push o\nx = l.min()\nsize l\n"),
+    ("map-display-values-read-map", "m = {}\no =\n  @display: || 'o{size m}'\nm.a = o\nm.b = o\n'{m}'\n"),
+    ("map-eq-values-read-map", "m = {}\no =\n  @==: |other| (size m) > 100\nm.a = o\nm == {a: o}\n"),
+    ("each-pushes", "l = [1, 2]\nn = l.each(|x| l.push x).take(3).count()\n'{n} {size l}'\n"),
+    ("for-pushes", "l = [1, 2, 3]\nfor x in l\n  if (size l) < 6\n    l.push x\nsize l\n"),
+    ("map-for-removes", "m = {a: 1, b: 2, c: 3}\nfor k, v in m\n  m.remove 'c'\nsize m\n"),
+    ("nested-transform-reads-outer", "l = [[1], [2]]\nl.transform |x| x.transform |y| y + size l\n'{l}'\n"),
+    ("keys-iterator-inserts", "m = {a: 1}\nfor k in m.keys()\n  if (size m) < 4\n    m.insert '{k}x', 1\nsize m\n"),
+    ("list-display-element-clears", "l = []\no =\n  @display: ||\n    l.clear()\n    'o'\nl.push o\nl.push o\n'{l}'\n"),
+    ("index-assign-value-from-callback", "l = [1, 2]\nl[0] = (|| size l)()\n'{l}'\n"),
+    ("map-get-default-reads", "m = {a: 1}\nm.get('zz', size m)\n"),
+];
+
+/// Runs one solo script on a fresh instance under the solo guard
+pub fn run_solo(script: &str) -> Result<String, String> {
+    let mut host = Host::new(HostSettings::default());
+    let r = catch_unwind(AssertUnwindSafe(|| {
+        crate::sched::solo(|| host.koto.compile_and_run(script).map_err(|e| e.to_string()))
+    }));
+    match r {
+        Ok(r) => Ok(match r {
+            Ok(v) => host
+                .koto
+                .value_to_string(v)
+                .unwrap_or_else(|e| format!("<display error {e}>")),
+            Err(e) => format!("ERR {}", crate::host::first_line(&e)),
+        }),
+        Err(_) => Err(format!(
+            "panic in sequential run of `{}`: {}",
+            script.trim_end(),
+            host::take_last_panic().unwrap_or_default()
+        )),
+    }
+}
+
 /// A panic (rc: the borrow flag) or a self-deadlock (arc: the only running thread waits for a
 /// lock it holds) while ONE thread runs the operations one after the other is not a model
 /// problem: no schedule is involved, the operation cannot complete on its own
@@ -998,6 +1043,15 @@ pub fn sequential_report(w: &Workload, e: &str) -> Option<crate::campaign::Viola
 }
 
 pub fn replay_sequential(doc: &Value) -> (Option<(String, String)>, u64) {
+    if let Some(script) = doc["scenario"]["script"].as_str() {
+        return match run_solo(script) {
+            Ok(_) => (None, 0),
+            Err(e) => match sequential_violation(&e) {
+                Some(v) => (Some((v.class, v.detail)), 1),
+                None => (None, 0),
+            },
+        };
+    }
     let Some(w) = workload_from_json(&doc["scenario"]["workload"]) else {
         return (Some(("harness:bad-replay-file".into(), "cannot parse workload".into())), 0);
     };
@@ -1579,7 +1633,9 @@ pub fn validate_policy() -> Result<Vec<String>, String> {
 // both the rc and the arc build. Used by the rc/arc differential (C19, first sentence): the
 // observations must be identical in the two builds and equal to the sequential specification.
 
-pub struct SeqWorker;
+pub struct SeqWorker {
+    pub known: KnownFindings,
+}
 
 impl Worker for SeqWorker {
     fn run(&mut self, run_seed: u64, index: u64) -> RunReport {
@@ -1625,8 +1681,32 @@ impl Worker for SeqWorker {
                 }
             }
         }
+        // two of the solo scripts (seeded choice): callbacks into the container being worked on
+        let n = SOLO_SCRIPTS.len() as u64;
+        for pick in [run_seed % n, (run_seed >> 17) % n] {
+            let (id, script) = SOLO_SCRIPTS[pick as usize];
+            match run_solo(script) {
+                Ok(text) => d.str(&text),
+                Err(e) => {
+                    let v = sequential_violation(&e).expect("panic text");
+                    let mut feats = BTreeSet::new();
+                    feats.insert(format!("solo:{id}"));
+                    let known = self.known.matches("seqsim", &v.class, &feats);
+                    // (same digest in both builds: the operation cannot complete — by a panic
+                    // under rc, by waiting for itself under arc)
+                    d.str("cannot-complete");
+                    rep.violations.push(crate::campaign::ViolationReport {
+                        class: v.class,
+                        detail: v.detail,
+                        scenario: json!({"solo_script": id, "script": script, "sequential": true}),
+                        extra: json!({"features": feats}),
+                        known,
+                    });
+                }
+            }
+        }
         rep.digest = d.0;
-        rep.executions = 2;
+        rep.executions = 4;
         rep.sim_units = (o1.len() * 2) as u64;
         rep.signature = Some(d.0);
         rep.counters = vec![("container_operations", (o1.len() * 2) as u64)];
